@@ -240,8 +240,96 @@ func (g *gstate) pickNode() int {
 	return g.r.Intn(3)
 }
 
+// boundaryStep targets the cached last batch of the batched format: an append
+// that ends exactly on the last slot of a batch (index k*batch-1), directly
+// followed (optionally across a reopen, i.e. with a cold cache) by an overwrite
+// with a newer term that starts at a non-aligned index inside the last one or
+// two batches. The first partial batch of that overwrite is merged with the
+// cached (or, cold, the stored) last batch.
+func (g *gstate) boundaryStep(n int) {
+	nd := &g.ref.nodes[n]
+	emitSave := func(u update) bool {
+		if !g.emit(op{Kind: "SAVE", Ups: []update{u}}) {
+			return false
+		}
+		g.nmuts++
+		g.queries(n)
+		return true
+	}
+	if g.r.Chance(1, 4) { // cold cache before the boundary append
+		g.emit(op{Kind: "REOPEN"})
+	}
+	if g.r.Bool() { // an older version of the same batch is cached first
+		u := update{N: n, I0: nd.last() + 1}
+		if l := len(nd.ents); l > 0 && g.term[n] < nd.ents[l-1].Term {
+			g.term[n] = nd.ents[l-1].Term
+		}
+		u.Ents = g.mkEnts(n, u.I0, 1+g.r.Intn(12), false)
+		if !emitSave(u) {
+			return
+		}
+	}
+	i0 := nd.last() + 1
+	end := (i0/g.bs+1)*g.bs - 1
+	if g.r.Chance(1, 3) {
+		end += g.bs
+	}
+	if g.big && end-i0 > 8 {
+		return
+	}
+	u := update{N: n, I0: i0}
+	if l := len(nd.ents); l > 0 && g.term[n] < nd.ents[l-1].Term {
+		g.term[n] = nd.ents[l-1].Term
+	}
+	u.Ents = g.mkEnts(n, i0, int(end-i0+1), false)
+	g.maybeState(n, &u)
+	if !emitSave(u) {
+		return
+	}
+	if g.r.Chance(1, 4) { // the same shape with a cold cache
+		g.emit(op{Kind: "REOPEN"})
+	}
+	// the overwrite: newer term, non-aligned start inside the last 1-2 batches
+	span := g.bs * uint64(1+g.r.Intn(2))
+	lo := nd.marker + 1
+	if nd.last()+1 > span && nd.last()+1-span > lo {
+		lo = nd.last() + 1 - span
+	}
+	if lo > nd.last() {
+		return
+	}
+	start := lo + uint64(g.r.Intn(int(nd.last()-lo+1)))
+	if start%g.bs == 0 {
+		start++
+	}
+	if start > nd.last() {
+		return
+	}
+	remaining := int(nd.last() - start + 1)
+	k := 1 + g.r.Intn(remaining+5)
+	if g.big && k > 6 {
+		k = 6
+	}
+	if t := nd.ents[len(nd.ents)-1].Term; g.term[n] < t {
+		g.term[n] = t
+	}
+	o := update{N: n, I0: start, Ents: g.mkEnts(n, start, k, true)}
+	g.maybeState(n, &o)
+	if !emitSave(o) {
+		return
+	}
+	if g.r.Chance(1, 3) {
+		g.emit(op{Kind: "REOPEN"})
+		g.queries(n)
+	}
+}
+
 func (g *gstate) step() {
 	n := g.pickNode()
+	if g.r.Chance(1, 12) {
+		g.boundaryStep(n)
+		return
+	}
 	nd := &g.ref.nodes[n]
 	touched := []int{n}
 	ok := false
